@@ -876,6 +876,13 @@ impl Run {
                 }
             }
         }
+        if let Ok(p) = std::env::var("VP_QUICK_EXTRAS") {
+            if let Ok(txt) = std::fs::read_to_string(&p) {
+                if let Ok(v) = serde_json::from_str::<Value>(&txt) {
+                    coverage["quick_extras"] = v;
+                }
+            }
+        }
         let ev = json!({
             "property_id": self.id,
             "tier": if self.tier == Tier::Quick { "quick" } else { "thorough" },
